@@ -175,6 +175,9 @@ def brute_decide(solver, fixes, limit):
             pinned[f.operands[0].id] = f.operands[1]
         else:
             rest.append(f)
+    for v in solver.variables:
+        if v.id in pinned and isinstance(v, IntVar) and pinned[v.id] not in refsem.domain(v):
+            return False  # pinned outside the variable's own domain
     free = [v for v in solver.variables if v.id not in pinned]
     size = 1
     for v in free:
